@@ -9,6 +9,8 @@ import (
 	"encoding/json"
 	"flag"
 	"fmt"
+	"github.com/ethereum/go-ethereum/common"
+	ethcrypto "github.com/ethereum/go-ethereum/crypto"
 	"io/ioutil"
 	"math/big"
 	"math/rand"
@@ -39,6 +41,10 @@ type Tx struct {
 	Pay    string `json:"pay,omitempty"` // raw payload hex
 	BadSig bool   `json:"badsig,omitempty"`
 	Cls    string `json:"cls,omitempty"` // free-form class label of the generator (for evidence only)
+	// Ethereum-style transactions (k = eth): To = account | "create" | "contract" (the contract deployed earlier in
+	// the plan), Amt = value, Pay = calldata / init code hex ("store" = the storage test contract), Gas, NonceOff
+	Gas      uint64 `json:"gas,omitempty"`
+	NonceOff int    `json:"nonceoff,omitempty"`
 }
 
 type Plan struct {
@@ -63,14 +69,20 @@ var _unused = map[string]constant.BoltContractAddress{
 }
 
 var users = []string{"u1", "u2", "u3", "u4"}
+
+// senders of Ethereum-style transactions: e1, e2 send the ones that are expected to succeed, every transaction that
+// is expected to fail inside the EVM (and so consumes its nonce on the executing node only) comes from an account of
+// its own, so that the sibling node, which skips failed transactions, stays in step
+var ethUsers = []string{"e1", "e2", "ef0", "ef1", "ef2", "ef3", "ef4", "ef5", "ef6", "ef7", "ef8", "ef9"}
 var poor = map[string]string{"p0": "", "p1": "1", "p2": "20999", "p3": "21000", "p4": "21001", "p5": "230000", "p6": "209999"}
 
 type runner struct {
-	a, b *core.Node
-	pair *lockstep.Pair
-	plan *Plan
-	out  *os.File
-	seq  int
+	ethContract *types.Address // the contract created by the last eth "create" transaction of the plan
+	a, b        *core.Node
+	pair        *lockstep.Pair
+	plan        *Plan
+	out         *os.File
+	seq         int
 }
 
 func (r *runner) emit(m map[string]interface{}) {
@@ -157,6 +169,31 @@ func (r *runner) build(n *core.Node, t Tx) pb.Transaction {
 		td := &pb.TransactionData{Type: pb.TransactionData_INVOKE, VmType: pb.TransactionData_XVM, Payload: core.InvokePayload(t.M, mkArgs(t.Args)...)}
 		b, _ := td.Marshal()
 		tx = n.RawTx(from, r.addr(n, t.To, from), b, nil)
+	case "eth":
+		var to *types.Address
+		data, _ := hex.DecodeString(t.Pay)
+		switch t.To {
+		case "create":
+			if t.Pay == "store" {
+				data = core.StoreContractInit
+			}
+		case "contract":
+			to = r.ethContract
+			if to == nil {
+				to = n.Account("nocontract").Addr
+			}
+		default:
+			to = r.addr(n, t.To, from)
+		}
+		val, ok := new(big.Int).SetString(t.Amt, 10)
+		if !ok {
+			val = new(big.Int)
+		}
+		nonce := n.NextNonce(from.Addr)
+		if t.To == "create" {
+			r.ethContract = types.NewAddress(ethcrypto.CreateAddress(common.BytesToAddress(from.Addr.Bytes()), nonce).Bytes())
+		}
+		return n.EthTxNonce(from, to, val, t.Gas, 1, data, uint64(int(nonce)+t.NonceOff))
 	default: // raw
 		pay, _ := hex.DecodeString(t.Pay)
 		tx = n.RawTx(from, r.addr(n, t.To, from), pay, nil)
@@ -173,6 +210,11 @@ func (r *runner) build(n *core.Node, t Tx) pb.Transaction {
 
 func (r *runner) setup(n *core.Node) {
 	for _, u := range users {
+		if _, err := n.Fund(n.Account(u).Addr, "3000000"); err != nil {
+			panic(err)
+		}
+	}
+	for _, u := range ethUsers {
 		if _, err := n.Fund(n.Account(u).Addr, "3000000"); err != nil {
 			panic(err)
 		}
@@ -238,6 +280,13 @@ func (r *runner) run(dir string) {
 					d["amtKind"] = "num"
 					d["amtNum"] = v.Int64()
 				}
+			} else if t.K == "eth" {
+				d["to"] = "nil"
+				if tx.GetTo() != nil {
+					d["to"] = tx.GetTo().String()
+				}
+				d["amt"] = t.Amt
+				d["m"] = t.Cls
 			} else {
 				d["to"] = "nil"
 				if tx.GetTo() != nil {
@@ -252,6 +301,12 @@ func (r *runner) run(dir string) {
 		r.emit(ev)
 		if res == nil {
 			return
+		}
+		for _, t := range blk {
+			if t.K == "eth" { // the EVM checks nonces: a rejected message consumes none
+				a := r.acct(r.a, t.From).Addr
+				r.a.SetNonce(a, r.a.LedgerNonce(a))
+			}
 		}
 		if vs, ok := p.Views[bi]; ok {
 			d0 := r.a.Dump()
@@ -387,9 +442,61 @@ func genTx(rng *rand.Rand, surf []methodInfo, focus string) Tx {
 	}
 }
 
+// Ethereum-style transactions: plain transfers, contract creation, calls that store, revert or run out of gas, and
+// messages the EVM rejects before or after it bought the gas (nonce, funds, intrinsic gas, value)
+func genEth(rng *rand.Rand, st *ethState) Tx {
+	ok := []string{"e1", "e2"}[rng.Intn(2)]
+	fresh := func() string {
+		if st.nfail < 10 {
+			st.nfail++
+			return fmt.Sprintf("ef%d", st.nfail-1)
+		}
+		return ""
+	}
+	word := func(first byte) string {
+		b := make([]byte, 32)
+		b[0] = first
+		b[31] = byte(1 + rng.Intn(200))
+		return hex.EncodeToString(b)
+	}
+	switch c := rng.Intn(14); {
+	case c < 3:
+		return Tx{K: "eth", From: ok, To: []string{"u1", "fresh4", "e2", "self"}[rng.Intn(4)], Amt: []string{"0", "1", "1000"}[rng.Intn(3)], Gas: 21000, Cls: "eth-transfer"}
+	case c < 5 && !st.created:
+		st.created = true
+		return Tx{K: "eth", From: ok, To: "create", Pay: "store", Gas: 200000, Cls: "eth-create"}
+	case c < 7 && st.created:
+		return Tx{K: "eth", From: ok, To: "contract", Pay: word(0x01), Gas: 100000, Cls: "eth-call-store"}
+	case c < 8 && st.created:
+		if f := fresh(); f != "" {
+			return Tx{K: "eth", From: f, To: "contract", Pay: word(0xff), Gas: 100000, Cls: "eth-call-revert"}
+		}
+	case c < 9 && st.created:
+		if f := fresh(); f != "" {
+			return Tx{K: "eth", From: f, To: "contract", Pay: word(0x02), Gas: 22000, Cls: "eth-call-outofgas"}
+		}
+	case c < 10: // rejected after the gas was bought: gas limit below the intrinsic gas
+		return Tx{K: "eth", From: ok, To: "u2", Amt: "1", Gas: 20000, Cls: "eth-intrinsic-gas"}
+	case c < 11: // rejected after the gas was bought: the value is no longer covered
+		return Tx{K: "eth", From: ok, To: "u2", Amt: "2999000", Gas: 21000, Cls: "eth-value-not-covered"}
+	case c < 12:
+		return Tx{K: "eth", From: ok, To: "u2", Amt: "1", Gas: 21000, NonceOff: []int{5, -1}[rng.Intn(2)], Cls: "eth-bad-nonce"}
+	case c < 13: // cannot pay for the gas at all
+		return Tx{K: "eth", From: "p1", To: "u2", Amt: "0", Gas: 21000, Cls: "eth-no-funds"}
+	}
+	return Tx{K: "eth", From: ok, To: "u3", Amt: "7", Gas: 30000, Cls: "eth-transfer"}
+}
+
+type ethState struct {
+	created bool
+	nfail   int
+}
+
 func genPlan(rng *rand.Rand, surf []methodInfo, name string, focus string) *Plan {
 	p := &Plan{Name: name, NAdmins: []int{4, 9, 3}[rng.Intn(3)], Audit: rng.Intn(3) == 0, Seed: 1 + rng.Int63n(3), Views: map[int][]Tx{}, Restart: map[int]bool{}}
 	nb := 4 + rng.Intn(8)
+	es := &ethState{}
+	withEth := focus == "eth" || rng.Intn(3) == 0
 	for b := 0; b < nb; b++ {
 		k := 1 + rng.Intn(5)
 		if rng.Intn(3) == 0 {
@@ -400,7 +507,11 @@ func genPlan(rng *rand.Rand, surf []methodInfo, name string, focus string) *Plan
 		}
 		var blk []Tx
 		for i := 0; i < k; i++ {
-			blk = append(blk, genTx(rng, surf, focus))
+			if withEth && (focus == "eth" && rng.Intn(4) > 0 || rng.Intn(3) == 0) {
+				blk = append(blk, genEth(rng, es))
+			} else {
+				blk = append(blk, genTx(rng, surf, focus))
+			}
 		}
 		p.Blocks = append(p.Blocks, blk)
 		if rng.Intn(4) == 0 {
